@@ -1,6 +1,8 @@
 """C13 Spectral indices equal their band formulas, NaN where undefined."""
 import math
 
+import z3
+
 from sx import symnp, core as sc
 from sx.harness import TOL32
 from .common import raster, coords_affine, cells, And, Or, Not, Implies, ite, isnan, same, vals, Skip
@@ -51,6 +53,12 @@ def jobs(tier, seed):
     for fn in ('evi', 'savi'):
         out.append({'name': fn + '-param-validation', 'kind': 'params', 'fn': fn, 'shape': [1, 1], 'dtype': 'float32'})
     out.append({'name': 'shape-mismatch-rejected', 'kind': 'shapes', 'fn': 'ndvi', 'shape': [1, 2], 'dtype': 'float32'})
+    # bit-exact single-precision lemma for the shared normalised-ratio kernel (QF_FP, no real-number abstraction)
+    # 'swap' and 'scale' (bit-for-bit antisymmetry / power-of-two invariance) are encodable below but z3 5.1 and cvc5 1.0.3 both
+    # answer unknown after 600 s (equivalence of two division circuits), so they are not registered; those clauses are claimed
+    # over exact reals only (kind 'sym' jobs above)
+    for lemma in ('range',):
+        out.append({'name': 'float32-normalised-ratio-lemma-' + lemma, 'kind': 'fp32', 'lemma': lemma, 'fn': 'ndvi', 'shape': [1, 1], 'dtype': 'float32'})
     for dt in ('float32', 'uint8'):
         out.append({'name': 'true_color-' + dt, 'kind': 'true_color', 'fn': 'true_color', 'shape': [1, 2], 'dtype': dt})
     out.append({'name': 'true_color-2x2', 'kind': 'true_color', 'fn': 'true_color', 'shape': [2, 2], 'dtype': 'float64'})
@@ -86,6 +94,8 @@ def body(ctx, job):
     sc.set_axioms()
     if kind == 'true_color':
         return body_true_color(ctx, job)
+    if kind == 'fp32':
+        return body_fp32(ctx, job)
     names = INDICES[fn][0]
     bands = {n: _band(ctx, n, (h, w), dt) for n in names}
     rasters = {n: raster(bands[n], attrs={'res': 1}, name=n) for n in names}
@@ -168,3 +178,79 @@ def body_true_color(ctx, job):
             allv = band.flat_values()
             ok_band = And(Not(isnan(_flt(band[y, x]))), Not(And(*[Or(isnan(_flt(q)), _flt(q) == _flt(allv[0])) for q in allv])))
             ctx.check('channel-in-0-255', Implies(ok_band, And(v >= 0, v <= 255)))
+
+
+def _fp_same(x, y):
+    """bitwise-equal-or-both-NaN for FPV / python floats (+0 == -0)"""
+    if hasattr(x, 'bits') or hasattr(y, 'bits'):
+        from sx.fpv import FPV
+        x, y = FPV.lift(x), FPV.lift(y)
+        x, y = FPV._promote(x, y)
+        return sc.mkbool(z3.Or(z3.And(z3.fpIsNaN(x.t), z3.fpIsNaN(y.t)), z3.fpEQ(x.t, y.t)))
+    return (x != x and y != y) or x == y
+
+
+def body_fp32(ctx, job):
+    """(a-b)/(a+b) in IEEE single precision, executed by the real kernel on bit-exact operands:
+    lemma 'range'  finite non-negative bands: never +-inf, NaN only when the rounded denominator is zero, result in [-1, 1]
+    lemma 'swap'   any finite bands: kernel(b, a) == -kernel(a, b) bit for bit
+    lemma 'scale'  any finite bands below 2^125 in magnitude: kernel(2^k a, 2^k b) == kernel(a, b) bit for bit, k = 1, 2"""
+    from sx.symnp import SymArray
+    lemma = job.get('lemma', 'range')
+    a = ctx.fp32('a')
+    b = ctx.fp32('b')
+    sym = ctx.mode == 'sym'
+
+    def ratio(x, y):
+        arr1 = SymArray.from_list([x], (1, 1), 'float32')
+        arr2 = SymArray.from_list([y], (1, 1), 'float32')
+        return ctx.call('multispectral:_normalized_ratio_cpu', arr1, arr2)[0, 0]
+
+    if lemma == 'range':
+        if sym:
+            ctx.assume(sc.mkbool(z3.And(a.isfinite(), b.isfinite(), (a >= 0.0).t, (b >= 0.0).t)))
+        elif not (math.isfinite(a) and math.isfinite(b) and a >= 0 and b >= 0):
+            raise Skip()
+        o = ratio(a, b)
+        ctx.observe('ratio', o)
+        if not hasattr(o, 'bits'):
+            if o != o:
+                ctx.check('nan-only-for-zero-denominator', (a + b) == 0.0)
+            else:
+                ctx.check('ratio-in-unit-interval', -1.0 <= o <= 1.0)
+            return
+        ctx.check('never-nan-when-denominator-nonzero', sc.mkbool(z3.Not(o.isnan())))
+        ctx.check('never-infinite', sc.mkbool(z3.Not(o.isinf())))
+        ctx.check('ratio-in-unit-interval', And(o >= -1.0, o <= 1.0), info=lambda m: {'a': _fpev(m, a), 'b': _fpev(m, b), 'ratio': _fpev(m, o)})
+        return
+    if sym:
+        ctx.assume(sc.mkbool(z3.And(a.isfinite(), b.isfinite())))
+    elif not (math.isfinite(a) and math.isfinite(b)):
+        raise Skip()
+    if lemma == 'swap':
+        o1 = ratio(a, b)
+        o2 = ratio(b, a)
+        ctx.observe('ratio', o1)
+        ctx.observe('ratio-swapped', o2)
+        ctx.check('swap-negates-bit-for-bit', _fp_same(o2, -o1))
+        return
+    if lemma == 'scale':
+        lim = float(2 ** 125)
+        if sym:
+            ctx.assume(And(a <= lim, a >= -lim, b <= lim, b >= -lim))
+        elif not (abs(a) <= lim and abs(b) <= lim):
+            raise Skip()
+        o1 = ratio(a, b)
+        ctx.observe('ratio', o1)
+        for k in (1, 2):
+            f = float(2 ** k)
+            o2 = ratio(a * f, b * f)
+            ctx.observe('ratio-scaled-%d' % k, o2)
+            ctx.check('power-of-two-scale-invariant-bit-for-bit', _fp_same(o1, o2))
+        return
+    raise ValueError(lemma)
+
+
+def _fpev(m, x):
+    from sx import fpv
+    return fpv.ev(m, x)
